@@ -1069,7 +1069,7 @@ def run(tier, is_known):
     t0 = time.time()
     thorough = tier == "thorough"
     depth = 3 if thorough else 2
-    budget = 1620.0 if thorough else 240.0
+    budget = 1620.0 if thorough else 600.0
     t_end = t0 + budget
     # breadth before depth (should the time budget be hit, it cuts the deepest trees, not whole configurations); within one
     # depth the most expensive (warm) configurations first
@@ -1146,7 +1146,9 @@ def run(tier, is_known):
     if ineffective:
         raise engine.HarnessError("vacuous alphabet: %s never changed the victim in the unblocked control runs" % ineffective)
     # shortest histories first, so that the replay file of a signature holds a minimal history
-    viols.sort(key=lambda v: (len(v.get("history") or []), v["signature"]))
+    order = [e[0] for e in MENU_COMMON + MENU_ROLE["bA"] + MENU_ROLE["sA"]]
+    viols.sort(key=lambda v: (len(v.get("history") or []), [order.index(e[0]) for e in (v.get("history") or []) + [v.get("event") or ["tick"]]],
+                              v["signature"]))
     return {
         "violations": viols, "coverage": cov, "level": "model_checking",
         "assumptions": [
